@@ -524,40 +524,48 @@ fn main() {
                 break;
             }
             Err(e) => {
-                // find the module that does not compile, report it, drop it, try again with the rest
+                // find every module that does not compile, report them, drop them, try again with the rest
                 let lines: Vec<&str> = e.lines().collect();
-                let mut culprit: Option<(usize, bool)> = None;
+                let mut culprits: Vec<(usize, bool, String)> = Vec::new();
+                let mut last_error = String::new();
                 for l in &lines {
-                    if let Some(pos) = l.find("src/g") {
-                        let rest = &l[pos + 5..];
+                    if l.starts_with("error") {
+                        last_error = l.to_string();
+                    }
+                    if let Some(pos) = l.find("--> src/g") {
+                        let rest = &l[pos + 9..];
                         let digits: String = rest.chars().take_while(|c| c.is_ascii_digit()).collect();
                         if let Ok(k) = digits.parse::<usize>() {
-                            culprit = Some((k, rest[digits.len()..].starts_with('b')));
-                            break;
+                            let is_b = rest[digits.len()..].starts_with('b');
+                            if !culprits.iter().any(|c| c.0 == k) {
+                                culprits.push((k, is_b, last_error.clone()));
+                            }
                         }
                     }
                 }
-                let first: String = lines.iter().filter(|l| l.starts_with("error") || l.contains("-->")).take(6).cloned().collect::<Vec<_>>().join("\n");
-                match culprit {
-                    Some((k, is_b)) if k < cands.len() => {
-                        let (t, names, label) = cands[k].clone();
-                        h.hit("rustc:module-does-not-compile");
-                        let code: String = first.lines().next().unwrap_or("").split(':').next().unwrap_or("").to_string();
-                        let fp = match (&label, is_b) {
-                            (Some(l), true) => format!("unprefixed-name:{l}"),
-                            _ => format!("rename-rustc:{}:t{t}:{}", if is_b { "renamed" } else { "base" }, code.trim()),
-                        };
-                        viols.push(Viol {
-                            fingerprint: fp,
-                            what: if is_b { "a renamed grammar that lalrpop accepts does not compile (its conventional version does)".into() } else { "template does not compile".into() },
-                            fields: vec![("grammar_a".into(), inst(t, &base)), ("grammar_b".into(), inst(t, &names)), ("rustc".into(), first)],
-                        });
-                        cands.remove(k);
-                    }
-                    _ => {
-                        viols.push(Viol { fingerprint: "rename-rustc:unattributed".into(), what: "scratch crate does not compile".into(), fields: vec![("rustc".into(), first)] });
-                        break;
-                    }
+                if culprits.is_empty() || culprits.iter().any(|c| c.0 >= cands.len()) {
+                    let first: String = lines.iter().filter(|l| l.starts_with("error") || l.contains("-->")).take(6).cloned().collect::<Vec<_>>().join("\n");
+                    viols.push(Viol { fingerprint: "rename-rustc:unattributed".into(), what: "scratch crate does not compile".into(), fields: vec![("rustc".into(), first)] });
+                    break;
+                }
+                for (k, is_b, err) in &culprits {
+                    let (t, names, label) = cands[*k].clone();
+                    h.hit("rustc:module-does-not-compile");
+                    let code: String = err.split(':').next().unwrap_or("").to_string();
+                    let fp = match (&label, is_b) {
+                        (Some(l), true) => format!("unprefixed-name:{l}"),
+                        _ => format!("rename-rustc:{}:t{t}:{}", if *is_b { "renamed" } else { "base" }, code.trim()),
+                    };
+                    viols.push(Viol {
+                        fingerprint: fp,
+                        what: if *is_b { "a renamed grammar that lalrpop accepts does not compile (its conventional version does)".into() } else { "template does not compile".into() },
+                        fields: vec![("grammar_a".into(), inst(t, &base)), ("grammar_b".into(), inst(t, &names)), ("rustc".into(), err.clone())],
+                    });
+                }
+                let mut ks: Vec<usize> = culprits.iter().map(|c| c.0).collect();
+                ks.sort();
+                for k in ks.into_iter().rev() {
+                    cands.remove(k);
                 }
             }
         }
